@@ -102,10 +102,18 @@ func CalculateAmountToClaim(
 		remainingDepositValue = sdk.NewCoin(deposit.Denom, sdk.NewInt(0))
 	} else {
 		// calculate based on flow rate and remaining deposit
-		timeSinceLast := nowTime.Sub(lastOutflowTime)
-		secondsSinceLast := int64(timeSinceLast.Seconds())
-		numCoins := secondsSinceLast * flowRate
-		amountToClaim = sdk.NewCoin(deposit.Denom, sdk.NewIntFromUint64(uint64(numCoins)))
+		// whole seconds since the last outflow, in integer arithmetic: time.Duration saturates at ~292
+		// years and float64 seconds round up from 2^24s + .999999999s onwards
+		secondsSinceLast := nowTime.Unix() - lastOutflowTime.Unix()
+		if nowTime.Nanosecond() < lastOutflowTime.Nanosecond() {
+			secondsSinceLast = secondsSinceLast - 1
+		}
+		if secondsSinceLast < 0 {
+			secondsSinceLast = 0
+		}
+		// the product can exceed int64 (e.g. 4s at 2^62/s)
+		numCoins := sdk.NewInt(secondsSinceLast).Mul(sdk.NewInt(flowRate))
+		amountToClaim = sdk.NewCoin(deposit.Denom, numCoins)
 		if deposit.Amount.GT(amountToClaim.Amount) {
 			remainingDepositValue = deposit.Sub(amountToClaim)
 		} else {
